@@ -84,6 +84,30 @@ func c09Receivers(c *Ctx) []c09Recv {
 		c09Recv{"Condition/rejecting-validity", func() any {
 			return stackage.Cond("kw", stackage.Eq, "val").SetValidityPolicy(func(...any) error { return errCat }).SetReadOnly(true)
 		}},
+		// an error on record when the flag is set (a plain one, and a nil pointer inside a non-nil error value):
+		// readers leave it exactly as it is
+		c09Recv{"AND/content1/error-on-record", func() any { return stackage.And().Push("a", nil, "b").SetErr(errCat).SetReadOnly(true) }},
+		c09Recv{"OR/content1/typed-nil-error-on-record", func() any { return stackage.Or().Push("a", nil, "b").SetErr((*ptrErr)(nil)).SetReadOnly(true) }},
+		c09Recv{"LIST/content2/typed-nil-error-below", func() any {
+			return stackage.List().Push(stackage.Or().Push("n1").SetErr((*ptrErr)(nil)).SetReadOnly(true), stackage.Cond("ck", stackage.Eq, "v").SetErr((*ptrErr)(nil)).SetReadOnly(true), "leaf").SetReadOnly(true)
+		}},
+		c09Recv{"Condition/error-on-record", func() any { return stackage.Cond("kw", stackage.Eq, "val").SetErr(errCat).SetReadOnly(true) }},
+		c09Recv{"Condition/typed-nil-error-on-record", func() any { return stackage.Cond("kw", stackage.Eq, "val").SetErr((*ptrErr)(nil)).SetReadOnly(true) }},
+		// expressions held under a type of the caller's own, or through pointers
+		c09Recv{"Condition/alias-expression", func() any {
+			return stackage.Cond("kw", stackage.Eq, StackAlias(stackage.And().Push("x", "y"))).SetReadOnly(true)
+		}},
+		c09Recv{"Condition/pointer-expression", func() any {
+			st := stackage.Or().Push("x", nil)
+			return stackage.Cond("kw", stackage.Eq, &st).SetReadOnly(true)
+		}},
+		c09Recv{"Condition/pointer-alias-expression", func() any {
+			st := StackAlias(stackage.List().Push("x"))
+			return stackage.Cond("kw", stackage.Eq, &st).SetReadOnly(true)
+		}},
+		c09Recv{"Condition/condition-alias-expression", func() any {
+			return stackage.Cond("kw", stackage.Eq, CondAlias(stackage.Cond("i", stackage.Ne, "v"))).SetReadOnly(true)
+		}},
 		c09Recv{"Condition/init-only", func() any { var cd stackage.Condition; cd.Init(); return cd.SetNoNesting(true).SetReadOnly(true) }},
 		c09Recv{"deep-chain/5", func() any { return c09DeepChain(5) }}, c09Recv{"deep-chain/7", func() any { return c09DeepChain(7) }}, c09Recv{"deep-chain/18", func() any { return c09DeepChain(18) }},
 		c09Recv{"deep-chain/6/conditions", func() any { return c09DeepChain(6, true) }}, c09Recv{"deep-chain/17/conditions", func() any { return c09DeepChain(17, true) }},
